@@ -36,8 +36,11 @@ CheckOp(line, ev) ==
   IN /\ Bump(2)
      /\ Chk(line, Enabled(S, o), "X.harness", <<ev.op>>)
      /\ Chk(line, Len(ev.routes) = Len(S2.routes), "C01.decl", <<"count", Len(ev.routes), Len(S2.routes)>>)
-     \* registered routes never change
-     /\ \A i \in 1..n : i <= Len(ev.routes) /\ i <= Len(L) =>
+     \* RemoveRoute takes exactly that route away
+     /\ (o.op = "rm" /\ Len(L) = n) =>
+          Chk(line, ev.routes = [i \in 1..(n - 1) |-> IF i < o.b THEN L[i] ELSE L[i + 1]], "C01.decl", <<"removed", o.b, ev.routes>>)
+     \* registered routes never change otherwise
+     /\ o.op # "rm" => \A i \in 1..n : i <= Len(ev.routes) /\ i <= Len(L) =>
           /\ Chk(line, ev.routes[i].prod = L[i].prod, "C05.decl", <<"changed", i, ev.routes[i].prod, L[i].prod>>)
           /\ Chk(line, ev.routes[i].m = L[i].m /\ ev.routes[i].path = L[i].path /\ ev.routes[i].cons = L[i].cons,
                  "C01.decl", <<"changed", i, ev.routes[i], L[i]>>)
